@@ -32,7 +32,9 @@ RULE = ("histories of 8-14 (thorough 20-30) events over a generated universe (2-
         "kind, add/remove/nested SCM, url digest), upstream ops (commit, rewrite, new/moved tag, new/deleted branch, "
         "import and file changes), user ops in a checked out clone (dirty file, untracked file, staged file, commit, new "
         "branch + commit, branch switch, detached HEAD, commit on detached HEAD), package use/unuse, and Bob commands "
-        "run for real.  A case = one Bob invocation in its history context (distinct by history seed and position); it is "
+        "run for real; every fourth history is a short scenario that forces a critical coincidence (user work in a nested clone "
+        "whose parent goes to the attic, then clean --attic; user work + unused package + clean -s; the user's own directory "
+        "where the recipe then wants a checkout).  A case = one Bob invocation in its history context (distinct by history seed and position); it is "
         "non-trivial when a recipe/upstream/user change preceded it.  Direct streams: spec pairs over all modelled "
         "properties (distinct by pair), all 2^10 taint sets, random directory sets incl. ./, //, names sorting before '.', "
         "and switch/update/status cases on real clones (distinct by (clone state, old spec, new spec)).")
@@ -157,6 +159,17 @@ def gen_git_spec(r, w, d, repo=None):
     return s
 
 
+def gen_git_spec_on_branch(r, w, d, repo=None):
+    """a commit (or tag) together with a branch that contains it: what `gitCommitOnBranch` expects"""
+    repo = repo or r.choice(sorted(w.repos))
+    bare = w.repos[repo]
+    rc, out = w.git(bare, "for-each-ref", "--format=%(refname)", "refs/heads")
+    branches = [x[11:] for x in out.split()]
+    b = r.choice(branches)
+    rc, out = w.git(bare, "rev-list", "-n", "6", b)
+    return {"scm": "git", "url": "file://" + bare, "dir": d, "branch": b, "commit": r.choice(out.split())}
+
+
 def gen_other_spec(r, w, d):
     k = r.random()
     if k < 0.5:
@@ -174,7 +187,13 @@ def gen_other_spec(r, w, d):
     return s
 
 
-def gen_initial(r, w):
+def gen_initial(r, w, nested=False):
+    if nested:
+        # a git SCM with a git SCM nested in a directory that the parent repository (r0) ignores
+        parent = r.choice([".", "a", "b"])
+        sub = r.choice(["sub", "nest"])
+        return [gen_git_spec(r, w, parent, "r0"),
+                gen_git_spec(r, w, sub if parent == "." else parent + "/" + sub)]
     n = r.choice([1, 1, 2, 2, 3])
     specs = []
     root_kind = r.random()
@@ -206,7 +225,7 @@ def edit_specs(r, w, specs):
         if what < 0.55:
             # other ref of the same repository
             repo = next(n for n, p in w.repos.items() if "file://" + p == old["url"])
-            new = gen_git_spec(r, w, old["dir"], repo)
+            new = gen_git_spec_on_branch(r, w, old["dir"], repo) if r.random() < 0.35 else gen_git_spec(r, w, old["dir"], repo)
             desc = "edit-ref"
         elif what < 0.8:
             new = gen_git_spec(r, w, old["dir"])
@@ -478,6 +497,7 @@ def run_history(job):
     """executed in a forked worker: runs one history for real, returns the record"""
     (base, pym, hseed, nevents, want_model) = job[:5]
     deadline = job[5] if len(job) > 5 else None
+    flavor = job[6] if len(job) > 6 else "random"
     from gen.c12world import World, parse_gitlog, snap_of
     r = random.Random(hseed)
     if os.path.exists(base):
@@ -486,7 +506,8 @@ def run_history(job):
     w = World(base, pym)
     rec = {"hseed": hseed, "nevents": nevents, "events": [], "violations": [], "contract": [], "skipped": None, "log": []}
     try:
-        _history(w, r, rec, nevents, want_model, parse_gitlog, snap_of, deadline)
+        rec["flavor"] = flavor
+        _history(w, r, rec, nevents, want_model, parse_gitlog, snap_of, deadline, flavor)
     except Exception as e:  # harness problem: never a verdict
         import traceback
         rec["skipped"] = "harness: %s: %s" % (type(e).__name__, e)
@@ -496,9 +517,9 @@ def run_history(job):
     return rec
 
 
-def _history(w, r, rec, nevents, want_model, parse_gitlog, snap_of, deadline=None):
+def _history(w, r, rec, nevents, want_model, parse_gitlog, snap_of, deadline=None, flavor="random"):
     # ---- universe
-    w.gen_repo(r, "r0", ignore=IGNORED if r.random() < 0.6 else None)
+    w.gen_repo(r, "r0", ignore=IGNORED if (r.random() < 0.6 or flavor == "nested-attic") else None)
     w.gen_repo(r, "r1", ignore=IGNORED if r.random() < 0.3 else None)
     # a mirror of r0 under another url (may fall behind later)
     mirror = os.path.join(w.base, "up", "r0m.git")
@@ -512,7 +533,7 @@ def _history(w, r, rec, nevents, want_model, parse_gitlog, snap_of, deadline=Non
     policies = {"scmIgnoreUser": True, "pruneImportScm": r.random() < 0.5, "gitCommitOnBranch": r.random() < 0.6,
                 "fixImportScmVariant": True, "defaultFileMode": False, "urlScmSeparateDownload": False}
     ubc = policies["gitCommitOnBranch"]
-    specs = gen_initial(r, w)
+    specs = gen_initial(r, w, nested=(flavor == "nested-attic"))
     used = True
     write_recipes(w, specs, used, policies)
     attic_index = {}
@@ -575,7 +596,8 @@ def _history(w, r, rec, nevents, want_model, parse_gitlog, snap_of, deadline=Non
         return list(rec["log"])
 
     def case(extra=None):
-        c = {"kind": "history", "hseed": rec["hseed"], "nevents": rec["nevents"], "upto": len(rec["log"]), "log": describe()}
+        c = {"kind": "history", "hseed": rec["hseed"], "nevents": rec["nevents"], "flavor": rec.get("flavor", "random"),
+             "upto": len(rec["log"]), "log": describe()}
         if extra:
             c.update(extra)
         return c
@@ -739,7 +761,7 @@ def _history(w, r, rec, nevents, want_model, parse_gitlog, snap_of, deadline=Non
             if not os.path.isdir(wsroot):
                 touched.clear()
     # ---- scripted tails that make the clean commands meet user work (otherwise a rare coincidence)
-    tail = r.random()
+    tail = {"clean-src": 0.1, "nested-attic": 0.5, "collision": 0.8}.get(flavor, r.random())
     if not rec.get("cut") and tail < 0.35:
         gd = git_dirs()
         if gd and used:
@@ -1197,8 +1219,15 @@ def histories(ctx, want_model):
     jobs = []
     for i in range(n):
         hseed = "C12-%d-%s-%d" % (ctx.seed, ctx.tier, i)
-        jobs.append((os.path.join(ctx.tmp, "h%d" % i), os.path.join(ctx.repo, "pym"), hseed, r.randrange(lo, hi + 1), True,
-                     getattr(ctx, 't_run0', ctx.t0) + ctx.budget - 40))
+        # every fourth history is a short scenario that makes a critical coincidence certain: user work in a nested
+        # clone whose parent goes to the attic + clean --attic; user work + unused package + clean -s; the user's own
+        # directory where the recipe then wants a checkout
+        flavor = ["nested-attic", "clean-src", "collision", "nested-attic"][(i // 4) % 4] if i % 4 == 1 else "random"
+        nev = r.randrange(lo, hi + 1)
+        if flavor != "random":
+            nev = r.randrange(0, 4)
+        jobs.append((os.path.join(ctx.tmp, "h%d" % i), os.path.join(ctx.repo, "pym"), hseed, nev, True,
+                     getattr(ctx, 't_run0', ctx.t0) + ctx.budget - 40, flavor))
     recs = []
     batch = 16
     for i in range(0, len(jobs), batch):
@@ -1256,7 +1285,8 @@ def correspond(ctx):
 
 def replay(ctx, case):
     if case.get("kind") == "history":
-        job = (os.path.join(ctx.tmp, "replay"), os.path.join(ctx.repo, "pym"), case["hseed"], case["nevents"], False)
+        job = (os.path.join(ctx.tmp, "replay"), os.path.join(ctx.repo, "pym"), case["hseed"], case["nevents"], False, None,
+               case.get("flavor", "random"))
         rec = run_history(job)
         for v in rec["violations"]:
             ctx.violation(v["what"], v["case"], v["signature"])
@@ -1486,8 +1516,8 @@ def direct_git_case(job):
         w.gen_repo(r, "r1", ignore=None)
         os.makedirs(w.proj)
         clone = os.path.join(w.proj, "clone")
-        ubc = r.random() < 0.6
-        cur = gen_git_spec(r, w, ".")
+        ubc = r.random() < 0.7
+        cur = gen_git_spec(r, w, ".") if r.random() < 0.6 else gen_git_spec_on_branch(r, w, ".")
         plan = [{"mode": "fresh", "new": cur}]
         steps = r.randrange(3, 7)
         ledger = []
@@ -1528,7 +1558,10 @@ def direct_git_case(job):
                 os.unlink(w.gitlog)
             if k < 0.85:
                 repo = next(nm for nm, p in w.repos.items() if "file://" + p == cur["url"])
-                new = gen_git_spec(r, w, ".", repo if r.random() < 0.7 else None)
+                if r.random() < 0.45:
+                    new = gen_git_spec_on_branch(r, w, ".", repo)
+                else:
+                    new = gen_git_spec(r, w, ".", repo if r.random() < 0.7 else None)
                 ok, post = gitscm_call(w, clone, "switch", cur, new, ubc)
                 n += 1
                 res["steps"].append(step_record(w, n, "switch %s -> %s" % (brief(cur), brief(new)), "switch", cur, new, ubc, (pre, mw), ok, post))
